@@ -18,7 +18,9 @@ PROPERTY = "C16"
 RULE = (
     "histories: all sequences of <= depth operations over a menu of 9 (seed(0), seed(12345), draw, fit k-means random, fit "
     "k-means||, fit GMM, fit ISV, fit JFA, fit i-vector) x 9 fits under test (k-means random numpy/dask, k-means|| , GMM from "
-    "seeded k-means numpy/dask, ISV list/bag/dask array, JFA list, WCCN), compared bit-for-bit with the empty history; "
+    "seeded k-means numpy/dask, ISV list/bag/dask array, JFA list, WCCN; plus refits, shared trainers / settings dicts, seed 0, the default "
+    "initialiser, and four estimators that are constructed BEFORE the history and trained after it, two of them training their UBM inside fit), "
+    "compared bit-for-bit with the empty history; "
     "permutations: all n! sample orders x all K! class renamings for k-means / GMM (explicit start), ISV, JFA, WCCN, whitening. "
     "Non-trivial: history non-empty or permutation not the identity; distinct = distinct case"
 )
@@ -30,7 +32,9 @@ BUDGET = {"quick": 900, "thorough": 4 * 3600}
 DEPTH = {"quick": 2, "thorough": 3}
 HOPS = ["seed0", "seed12345", "draw", "fit_km_random", "fit_gmm", "fit_isv", "fit_jfa", "fit_ivector", "fit_km_parallel"]
 TARGETS = ["km_random", "km_random_dask", "gmm_km", "gmm_km_dask", "isv_list", "isv_bag", "isv_array_dask", "jfa_list", "wccn", "km_parallel",
-           "isv_list_seed0", "jfa_list_seed0", "km_random_refit", "gmm_shared_km_trainer", "gmm_default_init"]
+           "isv_list_seed0", "jfa_list_seed0", "km_random_refit", "gmm_shared_km_trainer", "gmm_default_init",
+           "isv_lazy_built_first", "jfa_lazy_built_first", "gmm_built_first", "km_built_first"]
+# "*_built_first": the estimator is constructed, THEN the history happens, THEN it is trained
 
 _SHARED_KW = dict(n_gaussians=2, max_fitting_steps=2, convergence_threshold=None)  # one settings dict handed to several estimators
 
@@ -47,6 +51,8 @@ def cases(tier, seed):
         for h in hists:
             if t in ("km_parallel", "gmm_default_init") and len(h) > 1:
                 continue  # 0.3 s per initialisation: depth 1 only
+            if tier == "quick" and t.endswith("_built_first") and len(h) == 2 and (HOPS.index(h[0]) + HOPS.index(h[1])) % 2:
+                continue
             if tier == "quick" and len(h) == 2 and t in ("km_random_dask", "gmm_km_dask", "isv_bag", "isv_array_dask") and (HOPS.index(h[0]) + HOPS.index(h[1])) % 3:
                 continue
             out.append(dict(kind="history", target=t, hist=h, seed=seed))
@@ -86,7 +92,7 @@ def _vec(m, names):
     return {n: np.array(np.asarray(getattr(m, n)), float) for n in names}
 
 
-def _fit_target(t, X, ubm, stats):
+def _fit_target(t, X, ubm, stats, between=None):
     import dask.array as da
     import dask.bag as db
 
@@ -94,6 +100,26 @@ def _fit_target(t, X, ubm, stats):
 
     y = np.array(Y8)
     sl = np.array([0, 1, 0, 1, 1, 0])
+    if t.endswith("_built_first"):
+        kw = dict(n_gaussians=2, max_fitting_steps=2, convergence_threshold=None,
+                  k_means_trainer=KMeansMachine(2, init_method="random", random_state=2, max_iter=2))
+        if t == "isv_lazy_built_first":  # the UBM is trained inside fit_using_array
+            m, names = ISVMachine(r_U=1, em_iterations=1, ubm=None, ubm_kwargs=kw, random_state=11), ["U", "D"]
+        elif t == "jfa_lazy_built_first":
+            m, names = JFAMachine(r_U=1, r_V=1, em_iterations=1, ubm=None, ubm_kwargs=kw, random_state=11), ["U", "V", "D"]
+        elif t == "gmm_built_first":
+            m, names = GMMMachine(2, k_means_trainer=KMeansMachine(2, init_method="random", random_state=5, max_iter=2), random_state=5, max_fitting_steps=2,
+                                  update_means=True, update_variances=True, update_weights=True, convergence_threshold=None), ["means", "variances", "weights"]
+        else:
+            m, names = KMeansMachine(2, init_method="random", random_state=3, max_iter=3), ["centroids_"]
+        if between is not None:
+            between()
+        if t in ("isv_lazy_built_first", "jfa_lazy_built_first"):
+            m.fit_using_array(X.copy(), y)
+            out = _vec(m, names)
+            out["ubm_means"] = np.array(m.ubm.means, float)
+            return out
+        return _vec(m.fit(X.copy()), names)
     if t in ("km_random", "km_random_dask"):
         A = X.copy() if t == "km_random" else da.from_array(X.copy(), chunks=(3, 2))
         return _vec(KMeansMachine(2, init_method="random", random_state=3, max_iter=3).fit(A), ["centroids_"])
@@ -250,10 +276,16 @@ def run_case(case):
             _SHARED_KW.clear()
             _SHARED_KW.update(n_gaussians=2, max_fitting_steps=2, convergence_threshold=None)
             np.random.seed(424242)
-            for op in case["hist"]:
-                _hop(op, X, ubm, stats)
-                c.transitions += 1
-            got = _fit_target(case["target"], X, ubm, stats)
+            def history():
+                for op in case["hist"]:
+                    _hop(op, X, ubm, stats)
+                    c.transitions += 1
+
+            if case["target"].endswith("_built_first"):
+                got = _fit_target(case["target"], X, ubm, stats, between=history)
+            else:
+                history()
+                got = _fit_target(case["target"], X, ubm, stats)
             c.transitions += 3
             for k in ref:
                 c.check(got[k].shape == ref[k].shape and np.array_equal(got[k], ref[k]), "history",
